@@ -47,12 +47,41 @@ def real_rows(res, md):
     return call, stub
 
 
+def _lma_first_only(md):
+    ops = [i for i, a in enumerate(md["args"]) if a["k"] == "op"]
+    return ops == [0]
+
+
 DOC_CLASSES = {
     "C21-doc-xory1d-direction-order":
-        lambda md: any(a["k"] == "field" and a["st"] == "xory1d" for a in md["args"]),
+        lambda md, sec: any(a["k"] == "field" and a["st"] == "xory1d" for a in md["args"]),
     "C21-doc-diff-basis-first":
-        lambda md: any(f.get("diff_first") and f["basis"] and f["diff"] for f in md["funcs"]),
+        lambda md, sec: any(f.get("diff_first") and f["basis"] and f["diff"] for f in md["funcs"]),
+    "C21-doc-cma-assembly-ncell3d":
+        lambda md, sec: sec == "cmaAssembly" and not _lma_first_only(md),
+    "C21-doc-cma-apply-indirection-order":
+        lambda md, sec: sec == "cmaApply" and any(a["k"] == "cma" and a["to"] != a["from"] for a in md["args"]),
+    "C21-doc-domain-whole-dofmap":
+        lambda md, sec: sec == "domain",
 }
+
+
+def acc_property(md, res):
+    """OpenACC variant on the real code (kernels operating on cell columns): the array behind every
+    array actual of the kernel call must be named in KernCallAccArgList's list."""
+    if res["call"] is None or res.get("acc") is None or md["operates_on"] != "cell_column":
+        return None
+    # (the inherited mesh_properties() puts the *section* 'adjacent_face(:,cell)' into the list: compare base names)
+    names = {x.lower().split("(")[0] for x in res["acc"]}
+    for (txt, ty, kind, rank) in res["call"]:
+        t = txt.lower()
+        if "%" in t or ty in ("expression",):
+            continue
+        base = t.split("(")[0]
+        if (rank >= 1 or "(" in t) and base not in names:
+            return (f"OpenACC data list (KernCallAccArgList) does not name the array '{base}' that the kernel "
+                    f"call passes as '{txt}'")
+    return None
 
 
 def property_on_real(md, res):
@@ -63,6 +92,9 @@ def property_on_real(md, res):
             return ("a stub is generated but PSy-layer generation for the same metadata crashes: " + err[:160])
     if res["stub"] is not None and res.get("stub_problems"):
         return "the generated stub is not well formed: " + "; ".join(res["stub_problems"])
+    why = acc_property(md, res)
+    if why:
+        return why
     if res["stub"] is None or res["call"] is None:
         return None
     return R.compare(res["stub"], res["call"])
@@ -111,8 +143,20 @@ def check_case(chk, md, res, model, stream, stats):
             elif stub is not None and [tuple(x) for x in stub] != [tuple(x) for x in m["stub"][1]]:
                 agreed = False
                 chk.correspondence_broken("stub argument list differs from stubArgs", md, m["stub"][1], stub)
+            if res["call"] is not None and bool(m["acc"][0]) != (res.get("acc") is None):
+                agreed = False
+                chk.correspondence_broken("KernCallAccArgList: refusal differs", md, m["acc"][0], res.get("acc_err"))
+            elif res.get("acc") is not None:
+                stats["acc_lists_compared"] += 1
+                real_acc = [A.classify_call(x, md) for x in res["acc"]]
+                model_acc = [x[0] for x in m["acc"][1]]
+                if real_acc != model_acc:
+                    agreed = False
+                    chk.correspondence_broken("KernCallAccArgList list differs from accArgs", md, model_acc, real_acc)
             # documented order (general-purpose kernels): BOTH the real stub and the real call vs docOrder
-            if m["doc"][0] == "general":
+            if m["doc"][0] != "out-of-scope":
+                sec = m["doc"][0]
+                stats["doc_section:" + sec] += 1
                 doc_atoms = [x[0] for x in m["doc"][1]]
                 for side, rows, mrows in (("stub", stub, m["stub"][1]), ("call", call, m["call"][1])):
                     if rows is None:
@@ -121,7 +165,7 @@ def check_case(chk, md, res, model, stream, stats):
                     real_atoms = [x[0] for x in rows]
                     model_atoms = [x[0] for x in mrows]
                     if real_atoms != doc_atoms:
-                        cls = [k for k, f in DOC_CLASSES.items() if f(md)]
+                        cls = [k for k, f in DOC_CLASSES.items() if f(md, sec)]
                         if cls and real_atoms == model_atoms:
                             stats["doc_known:" + cls[0]] += 1
                         else:
@@ -157,8 +201,10 @@ def run(chk):
         "operator_type=r_def, columnwise_operator_type=r_solver, r_def/i_def/l_def scalars)",
         "operator_proxy%ncell_3d is integer(i_def) (LFRic infrastructure; compiled in the thorough tier)",
         "intents are those of the stub, compared with the documented access->intent rule",
-        "docOrder is a hand formalisation of 'Rules for General-Purpose Kernels' (reading choices in "
-        "Model/ArgOrderDoc.lean); CMA / inter-grid / domain rule sections are not formalised",
+        "docOrder/docOrderAll are a hand formalisation of the user guide's argument rules for general-purpose, CMA "
+        "(assembly/apply/matrix-matrix), inter-grid and domain kernels (reading choices in Model/ArgOrderDoc.lean); "
+        "out of scope: DoF kernels (documented as not implemented), the two boundary-condition kernels, CMA/inter-grid/"
+        "domain kernels with basis/reference-element/mesh metadata (their sections are silent)",
         "stencil extents in metadata are never set (PSyclone raises NotImplementedError for them)",
         "user-supplied DoF kernels are outside Valid: the pinned PSyclone cannot generate code for them",
         "CMA kernels with meta_mesh are not compared: both real generators crash on them (InternalError, "
@@ -193,6 +239,7 @@ def run(chk):
             found = True
     if chk.tier == "thorough" and not found:
         compile_tier(chk, [md for s, md in cases if s != "malformed"][:40], stats)
+    chk.cov["robustness_observations"] = robustness_observations()
     # known findings
     for e in common.known_findings(PROP):
         if replay_finding(e):
@@ -201,14 +248,70 @@ def run(chk):
 
 
 # ---------------------------------------------------------------------------------------------
+def robustness_observations():
+    """Metadata the parser accepts but for which NO argument list is produced (generator crashes).
+    Not C21 violations (there is nothing to compare); replayed on every run and recorded in the evidence."""
+    def fld(fs, acc):
+        return {"k": "field", "dt": "real", "vec": 1, "acc": acc, "fs": fs, "st": "none", "mesh": "none"}
+    dof = G.blank("kf")
+    dof["operates_on"] = "dof"
+    dof["args"] = [fld("w3", "readwrite")]
+    cma = G.blank("kc")
+    cma["args"] = [{"k": "cma", "acc": "write", "to": "w0", "from": "w1"},
+                   {"k": "op", "acc": "read", "to": "w0", "from": "w1"}]
+    cma["mesh"] = ["adjacent_face"]
+    out = []
+    dom = G.blank("kd")
+    dom["operates_on"] = "domain"
+    dom["args"] = [fld("w3", "readwrite")]
+    res = R.run_real(dom)
+    if res.get("acc") is not None and res["call"] is not None:
+        passed = [t for (t, ty, kind, rank) in res["call"] if t.lower().startswith("map_")]
+        out.append({"id": "acc-domain-dofmap-not-in-data-list",
+                    "what": "KernCallAccArgList.fs_compulsory_field returns early unless the kernel operates on cell "
+                            "columns: for a domain kernel the whole dofmap (and undf) passed by the call is not named in the "
+                            "OpenACC data list (Lean: C21_acc_domain_counterexample); outside the C21 statement",
+                    "metadata": dom, "call_passes": passed, "acc_list": res["acc"],
+                    "still_reproduces": bool(passed) and not any(p.lower() in [a.lower() for a in res["acc"]]
+                                                                 for p in passed)})
+    ig = G.blank("ki")
+    ig["args"] = [dict(fld("w1", "inc"), mesh="coarse"), dict(fld("w2", "read"), mesh="fine"),
+                  dict(fld("w1", "read"), mesh="coarse")]
+    res = R.run_real(ig)
+    out.append({"id": "acc-intergrid-two-coarse-arguments",
+                "what": "KernCallAccArgList.cell_map raises InternalError 'should have only one coarse mesh' when two "
+                        "ARGUMENTS are on the coarse mesh (allowed by the metadata rules); the ordinary call is generated",
+                "metadata": ig, "call": "generated" if res["call"] is not None else res["call_err"],
+                "acc": res.get("acc") or res.get("acc_err"),
+                "still_reproduces": res["call"] is not None and res.get("acc") is None})
+    for ident, what, md in (
+            ("user-dof-kernel", "user-supplied kernel with operates_on=dof: metadata accepted, stub generator refuses "
+             "(GenerationError: supports only cell_column), PSy-layer generation crashes while lowering the loop; the user "
+             "guide states that DoF kernels are not yet implemented (issue #1351), so this is documented behaviour", dof),
+            ("cma-kernel-with-meta-mesh", "CMA kernel with meta_mesh=adjacent_face: metadata accepted (the user guide does "
+             "not forbid it), but LFRicMeshProperties adds NCELL_2D for CMA kernels and kern_args() raises InternalError "
+             "'unsupported mesh property NCELL_2D' in BOTH the stub generator and the PSy-layer generator", cma)):
+        res = R.run_real(md)
+        out.append({"id": ident, "what": what, "metadata": md,
+                    "stub": "generated" if res["stub"] is not None else (res["stub_err"] or "")[:200],
+                    "call": "generated" if res["call"] is not None else (res["call_err"] or "")[:200],
+                    "still_reproduces": res["stub"] is None and res["call"] is None})
+    return out
+
+
 def replay_finding(e):
     """Doc findings: the real stub's argument order differs from the documented order on the witness."""
     md = e["witness"]["metadata"]
     res = R.run_real(md)
-    if res["stub"] is None:
+    call, stub = real_rows(res, md)
+    rows = stub if stub is not None else call
+    if rows is None:
         return False
-    _, stub = real_rows(res, md)
-    real_atoms = [x[0] for x in stub]
+    if "documented_type" in e["witness"]:
+        # documented type of an argument class vs the type the real stub declares
+        atom, ty = e["witness"]["documented_type"]
+        return any(r[0].startswith(atom) and r[1] != ty for r in rows)
+    real_atoms = [x[0] for x in rows]
     return real_atoms != e["witness"]["documented_order"]
 
 
